@@ -1,6 +1,6 @@
 (* C14 -- redo-ifcreate and redo-always dependencies (local theorems). *)
 From Coq Require Import ZArith List.
-From Redo Require Import Base.Bytes Build.Model Build.LocalProofs Build.FailProofs Build.CleanProofs.
+From Redo Require Import Base Build.Protect Build.CleanDb Build.Settle Build.SettleJob.Bytes Build.Model Build.LocalProofs Build.FailProofs Build.CleanProofs.
 
 (* declaring redo-ifcreate for an existing path is an error and records nothing *)
 Theorem C14_ifcreate_existing_errors : forall t ns w,
@@ -103,3 +103,25 @@ Check C14_not_before : forall runid w rk S fuel g l,
   (forall chg, r_changed (ld runid w g) = Some chg -> (chg <= runid)%Z) ->
   exists l' evs, is_dirty fuel runid nil w (ChkMem l) g (ld runid w g) runid nil = Ret (VClean, w, ChkMem l', evs).
 Print Assumptions C14_not_before.
+
+(* ---- "and not before", over whole builds (Build/SettleJob.v): a script may declare
+   redo-ifcreate on watched paths; when `redo-ifchange ts` exits 0 every target in ts
+   is settled -- which includes: every path it watches is absent and recorded -- and
+   the settled rows are a quiet set, on which C14_not_before (one check) and
+   C02_repeated_builds_run_nothing (every later command) say that nothing runs as
+   long as the watched paths stay absent and nothing else changes.  Scope and
+   premises as for C02_successful_build_settles (props/C02.v, with an example whose
+   top target watches a path). *)
+Theorem C14_build_with_ifcreate_settles : forall rk watched R (L : list name) k ts w w' evs,
+  R = (maxrun (dbs w) + 1)%Z -> (0 < R)%Z ->
+  wfw_b R rk (fst (new_run w)) = true -> fresh_b R (fst (new_run w)) = true ->
+  xr_b (fst (new_run w)) = true -> cre_b watched (fst (new_run w)) = true ->
+  (forall n, watched n = true -> reserved n = false) ->
+  (forall t, watched t = false -> reserved t = false -> In t L) ->
+  forallb (proj_t_b rk watched (fst (new_run w))) L = true ->
+  forallb (fun t => negb (watched t) && negb (reserved t)) ts = true ->
+  exec (CIfChange k ts) w = (w', OutBuild evs 0%Z) ->
+  (forall t, In t ts -> exists g, find_row (rows (dbs w')) t 1 = Some g /\ ok R w' nil g) /\
+  QUIET R (rkf rk w') (ok R w' nil) w'.
+Proof. exact ifchange_settles_b. Qed.
+Print Assumptions C14_build_with_ifcreate_settles.
